@@ -407,7 +407,9 @@ func cbPolicyBeforeData(c *ctx) {
 			notes = append(notes, name+": the lookup never waited")
 			continue
 		}
-		w.feed(mkResp(xdsresource.ClusterTypeURL, fmt.Sprintf("v%d", k+1), fmt.Sprintf("n%d", k+1), []*anypb.Any{clusterWithOutlier(name, gOutlier{Present: true, Thr: thr, Vol: vol})}))
+		// (the version string identifies the control plane's push, not the content: every second response re-uses the
+		// version of the one before)
+		w.feed(mkResp(xdsresource.ClusterTypeURL, fmt.Sprintf("v%d", k/2+1), fmt.Sprintf("n%d", k+1), []*anypb.Any{clusterWithOutlier(name, gOutlier{Present: true, Thr: thr, Vol: vol})}))
 		select {
 		case r := <-ch:
 			cfg, _ := r.cfg[name].([]interface{})
